@@ -1150,13 +1150,17 @@ func (c *checker) altDecodeOK(n, r int, class string, term error) bool {
 		c.violation("decode-lost-complete-record", "only %d messages decoded (then %v) although the %d records before the damage are intact", n, term, r)
 		return false
 	}
-	// the damaged record is fully present: its checksum can be evaluated, end-of-log is not an answer, and where the
-	// framing is intact (crc / payload byte) the answer is the distinct corruption class
+	// A damaged length field may make the record look like one that runs past the end of the log, which a reader cannot
+	// tell from a torn tail: end-of-log or any error is an answer.  With the framing intact (crc / payload byte) the
+	// record is fully present, its checksum can be evaluated, and the answer is the distinct corruption class.
+	if class == "len" {
+		return true
+	}
 	if term == io.EOF {
-		c.violation("decode-damage-reported-as-eof", "reading ends with io.EOF at the damaged record %d", r)
+		c.violation("decode-damage-reported-as-eof", "reading ends with io.EOF at the damaged record %d although all its bytes are there", r)
 		return false
 	}
-	if class != "len" && !cs.IsDataCorruptionError(term) {
+	if !cs.IsDataCorruptionError(term) {
 		c.violation("decode-corruption-not-classified", "checksum mismatch on record %d reported as %T %q, not as DataCorruptionError", r, term, term)
 		return false
 	}
@@ -1399,10 +1403,10 @@ func TestRegressionRotateSplitsRecord(t *testing.T) {
 	}
 	vstat.Eval()
 	vstat.Label("regression_split")
-	if !lg.split || len(lg.files) != 2 {
-		t.Fatalf("harness: expected a record split across two files, got files %v split=%v", lg.bounds, lg.split)
-	}
-	vstat.NonTrivial("regression|split")
+	if lg.split {
+		vstat.Label("regression_split_reproduced")
+		vstat.NonTrivial("regression|split")
+	} // else RotateFile has flushed the buffer: the finding is repaired and the intact log below must be fully searchable
 	c := &checker{t: t, lg: lg, observeKnown: true, afterAlt: -1}
 	c.checkIntact(filepath.Join(dir, "d"))
 }
